@@ -230,7 +230,8 @@ func doThaiPuaShaping(buffer *Buffer, font *Font) {
 			action = aboveEdge.action
 		}
 
-		buffer.unsafeToBreak(base, i)
+		// the mark itself is part of the inspected window: its shape depends on the base (and conversely)
+		buffer.unsafeToBreak(base, i+1)
 		if action == tcRD {
 			info[base].codepoint = thaiPuaShape(info[base].codepoint, action, font)
 		} else {
